@@ -16,7 +16,10 @@ for meta in sorted(glob.glob(os.path.join(VERIF, "seeded", "*", "*", "meta.json"
         if r.startswith("./check") and "-> exit 1" in r and "violation:" in r:
             tag = r.split("violation:", 1)[1].strip().split(":")[0]
             break
-    rows.append((pid, name, m.get("title", ""), m.get("needs_to_manifest", ""), ", ".join(caught) or "MISSED", tag))
+    status = ", ".join(caught) or "MISSED"
+    if v.get("superseded"):
+        status = (status + "; " if caught else "") + v["superseded"]
+    rows.append((pid, name, m.get("title", ""), m.get("needs_to_manifest", ""), status, tag))
 with open(os.path.join(VERIF, "notes", "SEEDED.md"), "w") as f:
     f.write("# Seeded breaking changes (written by independent sub-agents from the property text only)\n\n")
     f.write("Each change compiles, passes the repo's unedited suite, comes with a demonstration that fails with it and\n"
